@@ -170,6 +170,7 @@ macro_rules! sep_body {
 
 /// C11 over separator formats: complete(s) = Ok(v) <=> partial(s) = Ok((v, len)); partial(s) = Ok((v, n)), n > 0 => complete(s[..n]) = Ok(v).
 pub fn cmp_sep_partial_complete<const F: u128>(s: &[u8]) -> Result<(), &'static str> {
+    if s.is_empty() { return Ok(()); }   // precondition of parse_number: callers handle the empty input
     let opts = Options::new();
     let rp = parse_partial_number::<F>(s.bytes::<F>(), false, &opts);
     let rc = parse_complete_number::<F>(s.bytes::<F>(), false, &opts);
@@ -229,15 +230,15 @@ macro_rules! grammar_body {
 }
 
 crate::harnesses! {
-    /// partial vs complete tokenizer, flags LTC: strings len <= 4 over {0 7 _ . e x}.
+    /// partial vs complete tokenizer, flags LTC: strings len <= 3 over {0 7 _ . e x}.
     /// @prop C11 C13
     /// @feat format radix_format
-    /// @bound format F_LTC; input length <= 4 over {0 7 _ . e x}
+    /// @bound format F_LTC; input length <= 3 over {0 7 _ . e x}
     /// @fn lexical-parse-float::parse::{parse_partial_number, parse_complete_number}
     /// @fn lexical-util::skip::is_ltc!
     /// @timeout 1200
-    #[cfg_attr(kani, kani::unwind(7))]
-    fn sep_partial_complete_ltc() { pc_body!(F_LTC, 4) }
+    #[cfg_attr(kani, kani::unwind(6))]
+    fn sep_partial_complete_ltc() { pc_body!(F_LTC, 3) }
 
     /// partial vs complete tokenizer, flags LTC: strings len <= 5 over {0 7 _ . e x}.
     /// @prop C11 C13
@@ -251,15 +252,15 @@ crate::harnesses! {
     #[cfg_attr(kani, kani::unwind(8))]
     fn sep_partial_complete_ltc_len5() { pc_body!(F_LTC, 5) }
 
-    /// partial vs complete tokenizer, flags ITC: strings len <= 4 over {0 7 _ . e x}.
+    /// partial vs complete tokenizer, flags ITC: strings len <= 3 over {0 7 _ . e x}.
     /// @prop C11 C13
     /// @feat format radix_format
-    /// @bound format F_ITC; input length <= 4 over {0 7 _ . e x}
+    /// @bound format F_ITC; input length <= 3 over {0 7 _ . e x}
     /// @fn lexical-parse-float::parse::{parse_partial_number, parse_complete_number}
     /// @fn lexical-util::skip::is_itc!
     /// @timeout 1200
-    #[cfg_attr(kani, kani::unwind(7))]
-    fn sep_partial_complete_itc() { pc_body!(F_ITC, 4) }
+    #[cfg_attr(kani, kani::unwind(6))]
+    fn sep_partial_complete_itc() { pc_body!(F_ITC, 3) }
 
     /// partial vs complete tokenizer, flags ITC: strings len <= 5 over {0 7 _ . e x}.
     /// @prop C11 C13
@@ -273,15 +274,15 @@ crate::harnesses! {
     #[cfg_attr(kani, kani::unwind(8))]
     fn sep_partial_complete_itc_len5() { pc_body!(F_ITC, 5) }
 
-    /// partial vs complete tokenizer, flags ILC: strings len <= 4 over {0 7 _ . e x}.
+    /// partial vs complete tokenizer, flags ILC: strings len <= 3 over {0 7 _ . e x}.
     /// @prop C11 C13
     /// @feat format radix_format
-    /// @bound format F_ILC; input length <= 4 over {0 7 _ . e x}
+    /// @bound format F_ILC; input length <= 3 over {0 7 _ . e x}
     /// @fn lexical-parse-float::parse::{parse_partial_number, parse_complete_number}
     /// @fn lexical-util::skip::is_ilc!
     /// @timeout 1200
-    #[cfg_attr(kani, kani::unwind(7))]
-    fn sep_partial_complete_ilc() { pc_body!(F_ILC, 4) }
+    #[cfg_attr(kani, kani::unwind(6))]
+    fn sep_partial_complete_ilc() { pc_body!(F_ILC, 3) }
 
     /// partial vs complete tokenizer, flags ILC: strings len <= 5 over {0 7 _ . e x}.
     /// @prop C11 C13
@@ -295,15 +296,15 @@ crate::harnesses! {
     #[cfg_attr(kani, kani::unwind(8))]
     fn sep_partial_complete_ilc_len5() { pc_body!(F_ILC, 5) }
 
-    /// partial vs complete tokenizer, flags ILTC: strings len <= 4 over {0 7 _ . e x}.
+    /// partial vs complete tokenizer, flags ILTC: strings len <= 3 over {0 7 _ . e x}.
     /// @prop C11 C13
     /// @feat format radix_format
-    /// @bound format F_ALL; input length <= 4 over {0 7 _ . e x}
+    /// @bound format F_ALL; input length <= 3 over {0 7 _ . e x}
     /// @fn lexical-parse-float::parse::{parse_partial_number, parse_complete_number}
     /// @fn lexical-util::skip::is_iltc!
     /// @timeout 1200
-    #[cfg_attr(kani, kani::unwind(7))]
-    fn sep_partial_complete_iltc() { pc_body!(F_ALL, 4) }
+    #[cfg_attr(kani, kani::unwind(6))]
+    fn sep_partial_complete_iltc() { pc_body!(F_ALL, 3) }
 
     /// partial vs complete tokenizer, flags ILTC: strings len <= 5 over {0 7 _ . e x}.
     /// @prop C11 C13
@@ -317,15 +318,15 @@ crate::harnesses! {
     #[cfg_attr(kani, kani::unwind(8))]
     fn sep_partial_complete_iltc_len5() { pc_body!(F_ALL, 5) }
 
-    /// partial vs complete tokenizer, flags ILT: strings len <= 4 over {0 7 _ . e x}.
+    /// partial vs complete tokenizer, flags ILT: strings len <= 3 over {0 7 _ . e x}.
     /// @prop C11 C13
     /// @feat format radix_format
-    /// @bound format F_ILT; input length <= 4 over {0 7 _ . e x}
+    /// @bound format F_ILT; input length <= 3 over {0 7 _ . e x}
     /// @fn lexical-parse-float::parse::{parse_partial_number, parse_complete_number}
     /// @fn lexical-util::skip::is_ilt!
     /// @timeout 1200
-    #[cfg_attr(kani, kani::unwind(7))]
-    fn sep_partial_complete_ilt() { pc_body!(F_ILT, 4) }
+    #[cfg_attr(kani, kani::unwind(6))]
+    fn sep_partial_complete_ilt() { pc_body!(F_ILT, 3) }
 
     /// partial vs complete tokenizer, flags ILT: strings len <= 5 over {0 7 _ . e x}.
     /// @prop C11 C13
@@ -339,15 +340,15 @@ crate::harnesses! {
     #[cfg_attr(kani, kani::unwind(8))]
     fn sep_partial_complete_ilt_len5() { pc_body!(F_ILT, 5) }
 
-    /// partial vs complete tokenizer, flags LT: strings len <= 4 over {0 7 _ . e x}.
+    /// partial vs complete tokenizer, flags LT: strings len <= 3 over {0 7 _ . e x}.
     /// @prop C11 C13
     /// @feat format radix_format
-    /// @bound format F_LT; input length <= 4 over {0 7 _ . e x}
+    /// @bound format F_LT; input length <= 3 over {0 7 _ . e x}
     /// @fn lexical-parse-float::parse::{parse_partial_number, parse_complete_number}
     /// @fn lexical-util::skip::is_lt!
     /// @timeout 1200
-    #[cfg_attr(kani, kani::unwind(7))]
-    fn sep_partial_complete_lt() { pc_body!(F_LT, 4) }
+    #[cfg_attr(kani, kani::unwind(6))]
+    fn sep_partial_complete_lt() { pc_body!(F_LT, 3) }
 
     /// partial vs complete tokenizer, flags LT: strings len <= 5 over {0 7 _ . e x}.
     /// @prop C11 C13
